@@ -219,8 +219,12 @@ func (r *Run) Finish() int {
 	// violations
 	byKey := map[string]int{}
 	for i, v := range r.violations {
-		byKey[v.Key]++
-		if byKey[v.Key] > 5 || i >= 40 {
+		grp := v.Key + "|" + v.Summary
+		if len(grp) > len(v.Key)+45 {
+			grp = grp[:len(v.Key)+45]
+		}
+		byKey[grp]++
+		if byKey[grp] > 3 || i >= 400 && byKey[grp] > 1 {
 			continue // witness files are capped; all are counted
 		}
 		name := fmt.Sprintf("%s-%d-%d.json", r.ID, r.Seed, i)
